@@ -208,6 +208,11 @@ PerOK(p) ==
           IF kind = "csr" THEN p.nbr = Asc({Other(e, a) : e \in Out(a)}) /\ Len(p.nbr) = Cardinality(Out(a))
           ELSE IF kind = "list" THEN p.nbr = [i \in 1 .. Len(Row(a)) |-> Row(a)[i].b]
           ELSE LET f(e) == Other(e, a) IN SeqBag(p.nbr) = BagOf(f, Out(a)))
+    /\ ("nbr_rev" \in DOMAIN p =>       \* List neighbors backwards: by next_back, by rfold (rev().fold) and rev().last()
+          LET fw == [i \in 1 .. Len(Row(a)) |-> Row(a)[i].b]
+              bw == [i \in 1 .. Len(fw) |-> fw[Len(fw) + 1 - i]] IN
+          /\ p.nbr_rev[1] = bw /\ p.nbr_rev[2] = bw
+          /\ p.nbr_rev[3] = (IF fw = <<>> THEN <<>> ELSE <<fw[1]>>))
     /\ ("nin" \in DOMAIN p => LET f(e) == Other(e, a) IN SeqBag(p.nin) = BagOf(f, In(a)))
     /\ ("eo" \in DOMAIN p =>            \* edges(a) / edges_directed(a, Outgoing)
           IF kind = "list" THEN p.eo = [i \in 1 .. Len(Row(a)) |-> ETriple(Row(a)[i])]
@@ -242,6 +247,7 @@ ObsOK(o) ==
     /\ ("eix" \in DOMAIN o =>            \* EdgeIndexable: distinct indices below edge_bound, from_index inverse to to_index
           /\ Cardinality({o.eix[i][1] : i \in DOMAIN o.eix}) = Len(o.eix)
           /\ \A i \in DOMAIN o.eix : o.eix[i][1] < o.ebound /\ o.eix[i][2])
+    /\ ("nidx_rfold" \in DOMAIN o => o.nidx_rfold = [i \in 1 .. N |-> N - i])      \* node_indices().rev() driven by fold
     /\ ("bound" \in DOMAIN o => \A x \in Live : x < o.bound)
     /\ ("erefs" \in DOMAIN o =>          \* List edge ids: <<from, rank, target, w>> row-major
           o.erefs = LET rows == [a \in 0 .. (N - 1) |-> [i \in 1 .. Len(Row(a)) |-> <<a, i - 1, Row(a)[i].b, Row(a)[i].w>>]] IN
